@@ -122,6 +122,10 @@ def rand_exec(rng, nops, maxnodes=40):
         elif k < 0.76:
             if i == j or size[i] + size[j] > maxnodes:
                 continue
+            if rng.random() < 0.08:       # a mutable accessor's result kept across a copy (a recorded finding, see KNOWN_FINDINGS.jsonl)
+                ops.append("heldapp %d %d i1" % (i, j))
+                size[j] = size[i]; size[i] += 1
+                continue
             op = rng.choice(["applistv", "apparrv", "mapsetv"])
             ops.append("%s %d %d%s" % (op, i, j, (" x" + hx(rng.choice(KEYS))) if op == "mapsetv" else ""))
             size[i] += size[j]
@@ -152,6 +156,8 @@ def key_of(ops, step):
     t = ops[step - 1].split()
     op = t[0]
     key = "Variant." + op
+    if op == "heldapp":
+        return key
     if op == "get" and len(t) > 2 and t[1] == t[2]:
         return key + ":self"
     arr = any(o.startswith(("marr", "apparr", "in_marr", "in_apparr")) or any(x.startswith("A") for x in o.split()[1:])
@@ -217,7 +223,7 @@ def tree(x):
 
 ALL_OPS = ["ctor", "assign", "copy", "asg", "clear", "swap", "get", "mlist", "marr", "mmap", "mstr", "applist", "apparr", "mapset",
            "appstr", "applistv", "apparrv", "mapsetv", "in_mlist", "in_marr", "in_mmap", "in_mstr", "in_applist", "in_apparr",
-           "in_mapset", "in_appstr"]
+           "in_mapset", "in_appstr", "heldapp"]
 
 
 def op_counts(execs):
@@ -246,7 +252,7 @@ def replay_graph(ctx, binary, cfg, tag, timeout, sample=None):
     ctx.notes["graph_%s" % tag] = {"edges": nedges, "walks": total, "walks_replayed": len(walks),
                                    "ops_replayed": sum(len(e) for e in execs)}
     cnt = op_counts(execs)
-    for o in ALL_OPS:
+    for o in [x for x in ALL_OPS if x != "heldapp"]:          # heldapp exists at Layer 1 only (random histories)
         ctx.cov["graph_%s.%s" % (tag, o)] = cnt.get(o, 0)
         if cnt.get(o, 0) == 0:
             ctx.broken.append("vacuity: the Layer-2 graph %s has no transition for operation %s" % (tag, o))
